@@ -162,6 +162,7 @@ func runC05(e *Env) error {
 	rg := e.Rng
 	r.Rule = "(a) template sources: every generator template mutated (byte flips, deletions, duplications, truncations, splices of tag fragments) and random tag soup, parsed and rendered under panic recovery and a 10 s watchdog, the engine reused afterwards; " +
 		"(b) context type zoo (≈ 45 Go value shapes incl. nil pointers, typed/untyped/nil maps and slices, arrays, structs with value/pointer methods, embedded nil pointers, funcs, chans) × ≈ 70 templates applying every built-in filter, function, test, operator, loop and access form; " +
+		"(b2) every argument position of every built-in filter / function / test, right operand, index, slice bound and tag operand × literal and computed arguments (fractions below one, negative fractions, -0.0, overflowing floats, numeric strings, null, booleans, lists, maps, failing expressions) and context arguments (NaN, ±Inf, subnormals, every integer/float width, named types, pointers, the type zoo of (b)); " +
 		"(c) compiled-template decoding of random, truncated and mutated bytes with allocation measured; non-trivial = a mutated/zoo case that parses or a decode input that starts like a valid container; distinct by input"
 	report := func(key, what string, replay map[string]any) bool {
 		return r.Violate(Violation{Key: key, What: what, Broken: "C05 (panic/hang freedom is not exhibited by the Lean model; theorems C05_* cover termination/totality of the model)", Replay: replay})
@@ -462,6 +463,10 @@ func runC05(e *Env) error {
 				}
 			}
 		}
+	}
+	// (b2) the same value shapes, fractions, NaN/Inf and numeric strings in every ARGUMENT position (c05_args.go)
+	if runC05Args(e, report) {
+		return nil
 	}
 	// (c) compiled-template bytes
 	good := func() []byte {
